@@ -121,7 +121,7 @@ pub fn run_c01(args: &Args, tier: &str, seed: u64) -> Report {
     rep
 }
 
-fn c01_case(rep: &mut Report, m: &Model, seed: u64, idx: u64) {
+pub(crate) fn c01_case(rep: &mut Report, m: &Model, seed: u64, idx: u64) {
     let expected = m.clone().normalize();
     let replay = vec!["c01".to_string(), "--seed".into(), seed.to_string(), "--only".into(), idx.to_string()];
     // path A: to_bytes + payload -> blocking parser
@@ -259,7 +259,7 @@ fn wellformed_domain(m: &Model) -> bool {
     m.groups.iter().all(|g| g.attrs.values().all(ok))
 }
 
-fn c03_case(rep: &mut Report, m: &Model, seed: u64, idx: u64, trials: usize) {
+pub(crate) fn c03_case(rep: &mut Report, m: &Model, seed: u64, idx: u64, trials: usize) {
     let expected = m.clone().normalize();
     let replay = vec!["c03".to_string(), "--seed".into(), seed.to_string(), "--only".into(), idx.to_string()];
     let mut orders: HashSet<u64> = HashSet::new();
